@@ -5,7 +5,11 @@ interpreters under several PYTHONHASHSEED values):
 
   parent  : generates abstract class TREES (depth <= 4, branching <= 3, <= 8 classes; all attrs or all dataclasses;
             own fields from a small alphabet, so that siblings are told apart or not; field redefinitions; defaults;
-            some trees with a Literal discriminator field redefined by the subclasses), one or two instances per class,
+            some trees with a Literal discriminator field redefined by the subclasses; UNDECORATED classes - plain
+            `class P(Base): ...` without @define / @dataclass, behaviour only - as intermediate layers between decorated
+            classes and as leaves, and behaviour-only mixins from outside the hierarchy: such a class is an attrs class /
+            dataclass by inheritance, a class of the hierarchy like any other, and everything below it must be reached
+            THROUGH it; the model sees a node without own fields), one or two instances per class,
             and per tree four CONFIGURATIONS: {automatic, union strategy} x {forbid_extra_keys off, on}, each with random
             detailed_validation / omit_if_default / `overrides` (rename, omit_if_default) / tag name / tag generator;
             Further flavours: STAGED trees (the strategy is applied while only a prefix of the classes exists, the rest -
@@ -122,6 +126,19 @@ def _worker_realise(T, tag, classes=None, upto=None):
         node = T["classes"][ci]
         name = class_name(tag, T, ci)
         bases = (classes[node["parent"]],) if node["parent"] >= 0 else ()
+        if node.get("mixin"):
+            # a behaviour-only mixin from OUTSIDE the hierarchy (a fresh one per class: no MRO conflicts)
+            mx = type(name + "Mx", (), {"describe": lambda self: type(self).__name__})
+            bases = (mx, *bases) if node["mixin"] == "before" else (*bases, mx)
+        if node.get("plain"):
+            # an UNDECORATED class (no @define / @dataclass of its own): behaviour only, no fields - an attrs class /
+            # dataclass by inheritance (attrs.has / dataclasses.is_dataclass are true of it, fields = the base's)
+            cl = type(name, bases, {"area": lambda self: 0, "__doc__": "behaviour-only layer"})
+            got = [a.name for a in (attr.fields(cl) if T["kind"] == "attrs" else dataclasses.fields(cl))]
+            if sorted(got) != sorted(f["name"] for f in eff_fields(T, ci)):
+                raise RuntimeError(f"undecorated class: fields {got}")
+            classes.append(cl)
+            continue
         if T["kind"] == "attrs":
             attribs = {}
             for f in node["own"]:
@@ -379,7 +396,14 @@ def gen_tree(rng, tid, tier, flavour="plain"):
     T = {"id": tid, "kind": rng.choice(["attrs", "dc"]), "classes": classes}
     lit_vals = rng.sample(LIT_POOL, rng.randint(3, 6))
     lit_default = literal and rng.random() < 0.3
+    # undecorated (behaviour-only) classes: intermediate layers between decorated classes, leaves; mixins from outside
+    p_plain = rng.choice([0.0, 0.0, 0.25, 0.45]) if n >= 2 else 0.0
+    p_mixin = rng.choice([0.0, 0.0, 0.2])
     for ci in range(n):
+        if ci > 0 and rng.random() < p_plain:
+            classes.append({"parent": parents[ci], "own": [], "plain": True,
+                            **({"mixin": rng.choice(["before", "after"])} if rng.random() < p_mixin else {})})
+            continue
         own = []
         inherited = eff_fields(T, parents[ci]) if ci > 0 else []
         inh_names = [f["name"] for f in inherited]
@@ -412,7 +436,8 @@ def gen_tree(rng, tid, tier, flavour="plain"):
                 if f["lit"] is not None and lit_default:
                     f["dflt"], f["dv"] = "const", f["lit"][0]
         rng.shuffle(own)
-        classes.append({"parent": parents[ci], "own": own})
+        classes.append({"parent": parents[ci], "own": own,
+                        **({"mixin": rng.choice(["before", "after"])} if rng.random() < p_mixin else {})})
     has_default = any(f["dflt"] != "req" for c in classes for f in c["own"])
     redefines = any(f["name"] in [g["name"] for g in eff_fields(T, c["parent"])] for c in classes if c["parent"] >= 0
                     for f in c["own"])
@@ -425,7 +450,8 @@ def gen_tree(rng, tid, tier, flavour="plain"):
     if flavour == "listed":
         # explicit `subclasses=`: most classes listed (omitted intermediates = gaps, omitted leaves), in some order,
         # sometimes with a class listed twice
-        listed = [c for c in range(1, n) if rng.random() < 0.8] or [rng.choice(range(1, n))]
+        # (an undecorated class has no attribute of its own to be recognised by: mostly left out of the listing)
+        listed = [c for c in range(1, n) if rng.random() < (0.15 if classes[c].get("plain") else 0.8)] or [rng.choice(range(1, n))]
         dep = {c: len([k for k in range(n) if is_sub(T, c, k)]) for c in range(n)}
         order = rng.choice(["dfs", "bfs", "bfs", "random", "random", "index", "leaves-first"])
         if order == "dfs":
@@ -618,6 +644,42 @@ def fixed_trees():
            [cfg("union", False), cfg("auto", False), cfg("auto", True)])
     T["listing"] = [1, 2, 3, 1]
     out.append(T)
+    # UNDECORATED classes: Shape{a} > Polygon (plain, behaviour only) > {Triangle{b}, Rect{c} > Square{d}}; Shape > Circle{e}.
+    # Polygon is an attrs class / dataclass by inheritance and a class of the hierarchy like any other: found by the
+    # discovery, a member of the unions, a legitimate K; everything below it must be reached THROUGH it.
+    def plain(parent, **kw):
+        return dict({"parent": parent, "own": [], "plain": True}, **kw)
+
+    shp = [node(-1, _fld("a")), plain(0), node(1, _fld("b")), node(1, _fld("c")), node(3, _fld("d")), node(0, _fld("e"))]
+    shi = [{"cls": 0, "args": {"a": 1}}, {"cls": 1, "args": {"a": 2}}, {"cls": 2, "args": {"a": 1, "b": 2}},
+           {"cls": 3, "args": {"a": 1, "c": 3}}, {"cls": 4, "args": {"a": 1, "c": 3, "d": 4}}, {"cls": 5, "args": {"a": 1, "e": 5}}]
+    out.append(mk(-16, "attrs", shp, shi, [cfg("union", False), cfg("union", True), cfg("union", False, tag_name="kind_"),
+                                           cfg("auto", False)]))
+    # ... the automatic strategy with a listing that skips the undecorated layer (it has no attribute to be recognised by)
+    T = mk(-17, "dc", json.loads(json.dumps(shp)), shi, [cfg("auto", False), cfg("auto", True), cfg("union", False)])
+    T["listing"] = [2, 3, 4, 5]
+    out.append(T)
+    # ... undecorated leaves, and behaviour-only mixins from outside the hierarchy (before / after the base)
+    out.append(mk(-18, "attrs", [node(-1, _fld("a")), dict(node(0, _fld("b")), mixin="before"), plain(1),
+                                 plain(0, mixin="after"), dict(node(3, _fld("c")), mixin="after")],
+                  [{"cls": 0, "args": {"a": 1}}, {"cls": 1, "args": {"a": 1, "b": 2}}, {"cls": 2, "args": {"a": 1, "b": 3}},
+                   {"cls": 3, "args": {"a": 4}}, {"cls": 4, "args": {"a": 4, "c": 5}}],
+                  [cfg("union", False), cfg("union", True, detailed=False), cfg("auto", False)]))
+    # F47 once more, three levels down and through the root: C1{k: 'p'} > G{x} (inherits 'p') > GG{k: 'q'} below a root with
+    # its own value - structure(form of C1, C1) and structure(form of C1, Root) recurse without end (reduced union >= 3)
+    out.append(mk(-19, "attrs",
+                  [node(-1, _fld(LIT_NAME, lit=["r"])), node(0, _fld(LIT_NAME, lit=["p"])), node(1, _fld("x")),
+                   node(2, _fld(LIT_NAME, lit=["q"]))],
+                  [{"cls": 1, "args": {LIT_NAME: "p"}}, {"cls": 2, "args": {LIT_NAME: "p", "x": 1}},
+                   {"cls": 3, "args": {LIT_NAME: "q", "x": 2}}, {"cls": 0, "args": {LIT_NAME: "r"}}],
+                  [cfg("auto", False), cfg("auto", True)], literal=True, kw_only=True))
+    # F66 / F15 once more: A > B > C listed descendants first, union strategy, forbid_extra_keys
+    T = mk(-20, "attrs", [node(-1, _fld("a")), node(0, _fld("b")), node(1, _fld("c")), node(2, _fld("d"))],
+           [{"cls": 0, "args": {"a": 1}}, {"cls": 1, "args": {"a": 1, "b": 2}}, {"cls": 2, "args": {"a": 1, "b": 2, "c": 3}},
+            {"cls": 3, "args": {"a": 1, "b": 2, "c": 3, "d": 4}}],
+           [cfg("union", True), cfg("union", False)])
+    T["listing"] = [3, 2, 1]
+    out.append(T)
     # (was F49, repaired by 63cd579) a dataclass field with only a default_factory is not a key to recognise a class by:
     # P{a} / C(P){e = field(default_factory=...)} cannot be told apart, the automatic strategy refuses
     out.append(mk(-7, "dc",
@@ -743,6 +805,9 @@ def model_query(drv, T, cfg, names, rev, step="b"):
     if len(M["out"]) != len(pairs):
         raise lean.InfraError("model driver answered a different number of cases")
     M["apply"] = M["apply"] and all(M["applies"])
+    if M["scope"].get("hierarchy") is False:
+        raise lean.InfraError("generator produced a tree outside the theorems' scope (a class before its base, or a class "
+                              "statement the model's discovery does not reach): " + line[:300])
     return M
 
 
@@ -1096,7 +1161,16 @@ def tree_source(T, cfg=None):
         listing = "(" + ", ".join(f"K{c}" for c in T["listing"]) + ",)"
     for ci, node in enumerate(T["classes"]):
         deco = f"@attrs.define({kw})" if T["kind"] == "attrs" else f"@dataclasses.dataclass({kw})"
-        base = f"(K{node['parent']})" if node["parent"] >= 0 else ""
+        bs = [f"K{node['parent']}"] if node["parent"] >= 0 else []
+        if node.get("mixin"):
+            lines.append(f"class Mx{ci}:                     # behaviour-only mixin from outside the hierarchy\n    def describe(self): ...")
+            bs = [f"Mx{ci}"] + bs if node["mixin"] == "before" else bs + [f"Mx{ci}"]
+        base = f"({', '.join(bs)})" if bs else ""
+        if node.get("plain"):
+            lines.append(f"class K{ci}{base}:               # UNDECORATED: behaviour only, no fields of its own\n    def area(self): ...")
+            if T.get("stage0") and ci == T["stage0"] - 1:
+                lines.append("# ---- step a: include_subclasses(K0, c1, ...) is applied HERE, with the classes above; then:")
+            continue
         lines.append(f"{deco}\nclass K{ci}{base}:")
         if not node["own"]:
             lines.append("    pass")
@@ -1406,6 +1480,13 @@ def evaluate(chk, drv, trees, wres, seeds, count=True):
                      "flavour:" + ("ref" if T.get("refs") else "staged" if T.get("stage0") else
                                    "listed" if T.get("labels") else "plain"),
                      "depth:%d" % max(len([1 for k in range(n) if is_sub(T, c, k)]) for c in range(n)))
+            F0 = T.get("full") or T
+            pl = [c for c, nd in enumerate(F0["classes"]) if nd.get("plain")]
+            chk.note("undecorated-classes:" + ("none" if not pl else "+".join(sorted(
+                {"layer" if children(F0, c) else "leaf" for c in pl}))),
+                     "mixins:" + ("yes" if any(nd.get("mixin") for nd in F0["classes"]) else "no"))
+            if pl and T.get("labels"):
+                chk.note("listing:undecorated-" + ("skipped" if all(c not in T["labels"] for c in pl) else "listed"))
             if T.get("labels"):
                 F = T["full"]
                 chk.note("listing-order:" + F.get("listing_order", "fixed"),
@@ -1554,7 +1635,7 @@ def run(chk):
                 chk.violation("correspondence corr:C14:SUBCLS broken (theorems C14_* no longer tied to the code): " + what
                               + "\n" + case["source"] + "\n" + case.get("call", ""), case, found_input=False)
     chk.extra["rule"] = ("random class trees (<= 8 classes, depth <= 4, branching <= 3; attrs / dataclasses; own, shared, "
-                         "redefined, defaulted and Literal fields) x {automatic, tagged-union} x forbid_extra_keys x random "
+                         "redefined, defaulted and Literal fields; undecorated intermediate classes / leaves, mixins) x {automatic, tagged-union} x forbid_extra_keys x random "
                          "detailed_validation / omit_if_default / overrides / tag name+generator x every (K, instance of a "
                          "descendant) x PYTHONHASHSEED subprocesses; staged trees: apply, grow the hierarchy (new leaves, old "
                          "leaves becoming inner nodes, new inner nodes), apply to a fresh converter / to a copy of the first / "
